@@ -1092,20 +1092,26 @@ class RTCPeerConnection(AsyncIOEventEmitter):
             self.__pendingRemoteDescription = description
 
     async def __connect(self) -> None:
+        # NOTE: close() may run while this task is suspended, nothing must be
+        # started once the connection is closed
         for transceiver in self.__transceivers:
             dtlsTransport = transceiver.receiver.transport
             iceTransport = dtlsTransport.transport
             if (
                 iceTransport.iceGatherer.getLocalCandidates()
                 and transceiver in self.__remoteIce
+                and not self.__isClosed
             ):
                 await iceTransport.start(self.__remoteIce[transceiver])
-                if dtlsTransport.state == "new":
+                if dtlsTransport.state == "new" and not self.__isClosed:
                     await dtlsTransport.start(self.__remoteDtls[transceiver])
-                if dtlsTransport.state == "connected":
+                if dtlsTransport.state == "connected" and not self.__isClosed:
                     if transceiver.currentDirection in ["sendonly", "sendrecv"]:
                         await transceiver.sender.send(self.__localRtp(transceiver))
-                    if transceiver.currentDirection in ["recvonly", "sendrecv"]:
+                    if (
+                        transceiver.currentDirection in ["recvonly", "sendrecv"]
+                        and not self.__isClosed
+                    ):
                         await transceiver.receiver.receive(
                             self.__remoteRtp(transceiver)
                         )
@@ -1115,11 +1121,12 @@ class RTCPeerConnection(AsyncIOEventEmitter):
             if (
                 iceTransport.iceGatherer.getLocalCandidates()
                 and self.__sctp in self.__remoteIce
+                and not self.__isClosed
             ):
                 await iceTransport.start(self.__remoteIce[self.__sctp])
-                if dtlsTransport.state == "new":
+                if dtlsTransport.state == "new" and not self.__isClosed:
                     await dtlsTransport.start(self.__remoteDtls[self.__sctp])
-                if dtlsTransport.state == "connected":
+                if dtlsTransport.state == "connected" and not self.__isClosed:
                     await self.__sctp.start(
                         self.__sctpRemoteCaps, self.__sctpRemotePort
                     )
